@@ -192,6 +192,19 @@ op("concat_filt", "df", lambda x: _concat([x[x["a"] > 2], x[x["a"] <= 2]]), tier
 op("join_agg", "df", lambda x: x.set_index("a")[["u"]].join(x.groupby("a")[["b"]].sum()), order="lose", labels="new", tier=2)
 op("combine_first", "df", lambda x: x[["b"]].combine_first(x[["a"]]), tier=2, lsens=True)
 op("map_partitions", "df", lambda x: x.map_partitions(_mp_fn), pd=lambda x: _mp_fn(x), tier=2)
+def _mp_rowwise(df):
+    # row-wise apply that builds new columns: on a frame WITHOUT rows pandas returns the input's columns instead
+    return df.apply(lambda r: pd.Series({"p": r["a"] * 2, "q": r["u"] + 1}), axis=1)
+
+
+def _mp_rowwise_s(df):
+    return df.apply(lambda r: r["a"] * 2 + r["u"], axis=1)
+
+
+# partitions that come out empty (a > 4 leaves rows in one partition only) and a function whose schema on no rows differs
+op("mp_rowwise_sparse", "df", lambda x: x[x["a"] > 4][["a", "u"]].map_partitions(_mp_rowwise), pd=lambda x: _mp_rowwise(x[x["a"] > 4][["a", "u"]]), tier=2)
+op("mp_rowwise_sparse_s", "df", lambda x: x[x["a"] > 4][["a", "u"]].map_partitions(_mp_rowwise_s), pd=lambda x: _mp_rowwise_s(x[x["a"] > 4][["a", "u"]]), tier=2)
+op("mp_rowwise_none", "df", lambda x: x[x["a"] > 99][["a", "u"]].map_partitions(_mp_rowwise), pd=None, tier=2, tags=("daskonly",))
 op("map_partitions_len", "any", lambda x: x.map_partitions(len), pd=None, tags=("psens", "daskonly"), tier=4)
 op("map_overlap", "df", lambda x: x[["a", "b"]].map_overlap(_mo_fn, 1, 0), pd=lambda x: _mo_fn(x[["a", "b"]]), osens=True, tier=2)
 op("loc_slice", "any", lambda x: x.loc[2:7], lsens=True, osens=True, tier=2)
@@ -235,6 +248,26 @@ op("min_max", "df", lambda x: x["a"].max() - x["a"].min(), tier=3)
 # --------------------------------------------------------------------------
 op("twice_repart", "any", lambda x: _concat([x.repartition(npartitions=5), x.repartition(npartitions=4)]), pd=lambda x: _concat([x, x]), tier=2, tags=("twice",))
 op("twice_repart_unknown", "any", lambda x: (lambda y: _concat([y.repartition(npartitions=5), y.repartition(npartitions=7)]))(x.clear_divisions()), pd=lambda x: _concat([x, x]), tier=2, tags=("twice",))
+# many AND-ed conditions: every conjunct costs the simplifier extra passes while a balanced tree adds almost no depth
+def _conj(x, k, balanced):
+    atoms = [x["a"] > 0, x["u"] >= 1, x["d"] >= 0, x["a"] < 6, x["u"] < 11, x["d"] < 2, x["a"] != 4, x["u"] != 5][:k]
+    if not balanced:
+        out = atoms[0]
+        for t in atoms[1:]:
+            out = out & t
+        return x[out]
+    while len(atoms) > 1:
+        atoms = [atoms[i] & atoms[i + 1] if i + 1 < len(atoms) else atoms[i] for i in range(0, len(atoms), 2)]
+    return x[atoms[0]]
+
+
+op("filt_and4_nested", "df", lambda x: _conj(x, 4, False), tier=2)
+op("filt_and6_balanced", "df", lambda x: _conj(x, 6, True))
+op("filt_and8_nested", "df", lambda x: _conj(x, 8, False))
+op("filt_and8_balanced", "df", lambda x: _conj(x, 8, True), tier=2)
+op("repart_size200", "df", lambda x: x.repartition(partition_size=200), pd=ident, tier=2)
+op("twice_repart_size", "df", lambda x: _concat([x.repartition(partition_size=200), x.repartition(partition_size=100)]), pd=lambda x: _concat([x, x]), tier=2, tags=("twice",))
+op("twice_repart_size_merge", "df", lambda x: _concat([x.repartition(partition_size=100), x.repartition(partition_size=600)]), pd=lambda x: _concat([x, x]), tier=2, tags=("twice",))
 op("twice_repart_fewer", "any", lambda x: _concat([x.repartition(npartitions=2), x.repartition(npartitions=1)]), pd=lambda x: _concat([x, x]), tier=2, tags=("twice",))
 op("twice_shuffle", "df", lambda x: _concat([x.shuffle("a"), x.shuffle("d")]), pd=lambda x: _concat([x, x]), order="lose", tier=2, tags=("twice",))
 op("twice_shuffle_np", "df", lambda x: _concat([x.shuffle("a", npartitions=2), x.shuffle("a", npartitions=4)]), pd=lambda x: _concat([x, x]), order="lose", tier=2, tags=("twice",))
@@ -257,6 +290,13 @@ op("reopt_filter", "df", lambda x: (lambda o: o[o["a"] > 1][["a", "b"]])(x.assig
 # a key of the graph are substituted by the scheduler
 op("ph_names", "df", lambda x: (lambda y: y.assign(r=(y["_0"] + 1) * y["_1"].sum())[["_0", "r"]])(x.rename(columns={"a": "_0", "b": "_1"})), tier=2, tags=("nested",))
 op("ph_names2", "df", lambda x: (lambda y: (y["_1"] + y["_0"].sum()) * y["_0"].max())(x.rename(columns={"a": "_0", "u": "_1"})), tier=2, tags=("nested",))
+# method operators carry name / axis / fill_value beside their operands (rebuilt by the projection rule)
+op("add_fill", "df", lambda x: x[["a", "b", "u"]].add(x[["a", "b", "u"]].shift(1), fill_value=7), osens=True, tier=2)
+op("sub_axis0", "df", lambda x: x[["a", "b", "u"]].sub(x["a"], axis=0), tier=2)
+op("rsub_scalar", "df", lambda x: x[["a", "b", "u"]].rsub(10), tier=2)
+# a dtype mapping whose keys are substrings of each other, a rename mapping with an absent key that targets a real label
+op("astype_substr_keys", "df", lambda x: x.rename(columns={"d": "ab"}).astype({"a": "float32", "ab": "float64"}), tier=2)
+op("rename_absent_key", "df", lambda x: x.rename(columns={"zz": "a", "b": "B"}), tier=2)
 op("twice_partitions", "any", lambda x: _concat([x.partitions[[0]], x.partitions[[1]]]), pd=None, tags=("twice", "daskonly", "psens"), tier=2)
 
 
